@@ -142,7 +142,7 @@ pub fn run(args: &Args) -> i32 {
     let thorough = args.thorough();
     let ltts: Vec<LocalTimeType> = [0i32, 1, -1, 3600, -86399, i32::MAX, i32::MIN + 1].iter().map(|&o| LocalTimeType::with_ut_offset(o).unwrap()).collect();
     let mut total = Tally::default();
-    let big: i128 = if thorough { 1 << 33 } else { 1 << 28 };
+    let big: i128 = if args.digest_mode { 1 << 24 } else if thorough { 1 << 33 } else { 1 << 28 };
     total = total.merge(sweep_range("around_zero", -big, big, 64, &rec, &ltts));
     let w: i128 = if thorough { 1 << 22 } else { 1 << 20 };
     let mut centers: Vec<(String, i128)> = vec![];
